@@ -31,28 +31,29 @@ theorem isEmpty_no_mem {l : List Nat} (h : l.isEmpty = true) (x : Nat) : x ∉ l
   | nil => simp
   | cons a t => simp at h
 
-theorem retOk_thres {R : Nat → Prop} {r : List Nat} (h : ∀ id, R id → id ∈ r) :
-    RetOk R ⟨.thres, r⟩ := by
+theorem retOk_thres {R : Nat → Prop} {r : List Nat} {b : Bool} (h : ∀ id, R id → id ∈ r) :
+    RetOk R ⟨.thres, r, b⟩ := by
   intro P' hP' id hid
   exact h id (hP' id hid)
 
-theorem retOk_empty {R : Nat → Prop} (h : ∀ id, ¬ R id) : RetOk R ⟨.idxd, []⟩ := by
+theorem retOk_empty {R : Nat → Prop} (h : ∀ id, ¬ R id) : RetOk R ⟨.idxd, [], false⟩ := by
   intro P' hP' id
   simp only [List.not_mem_nil, false_iff]
   exact fun hp => h id (hP' id hp)
 
 theorem applyArm_ok (arm : Arm) (thres rem : Nat) (c i : IdList) (R : Nat → Prop)
-    (hsup : (arm.thresRet = true ∨ arm.emptyRet = true) → ∀ id, R id → id ∈ arm.op.apply c i)
-    (hout : Approx R ⟨arm.out, arm.op.apply c i⟩) :
+    (hsup : (arm.thresRet = true ∨ arm.emptyRet = true) → ∀ id, R id → id ∈ (arm.op.apply c i).1)
+    (hout : Approx R ⟨arm.out, (arm.op.apply c i).1, (arm.op.apply c i).2⟩) :
     match applyArm arm thres rem c i with
     | .ret r => RetOk R r
     | .cont c' => Approx R c' := by
   unfold applyArm
-  by_cases h1 : (arm.thresRet && decide ((arm.op.apply c i).length < thres) && decide (rem > 0)) = true
+  by_cases h1 : (arm.thresRet && belowThreshold (arm.op.apply c i).1 (arm.op.apply c i).2 thres
+      && decide (rem > 0)) = true
   · simp only [h1, if_true]
     simp only [Bool.and_eq_true] at h1
     exact retOk_thres (hsup (Or.inl h1.1.1))
-  · by_cases h2 : (arm.emptyRet && (arm.op.apply c i).isEmpty) = true
+  · by_cases h2 : (arm.emptyRet && (arm.op.apply c i).1.isEmpty) = true
     · simp only [h1, h2, if_true, if_false]
       simp only [Bool.and_eq_true] at h2
       exact retOk_empty (fun id hr => isEmpty_no_mem h2.2 id (hsup (Or.inr h2.1) id hr))
@@ -65,12 +66,12 @@ theorem andArm_step {P Q : Nat → Prop} {c i : IdList} (thres rem : Nat)
     | .ret r => RetOk (fun id => P id ∧ Q id) r
     | .cont c' => Approx (fun id => P id ∧ Q id) c' := by
   apply applyArm_ok
-  · obtain ⟨ck, cs⟩ := c
-    obtain ⟨ik, is⟩ := i
+  · obtain ⟨ck, cs, cc⟩ := c
+    obtain ⟨ik, is, ic⟩ := i
     cases ck <;> cases ik <;> simp only [andArm, SetOp.apply, Approx] at * <;>
       intro h id <;> (try simp only [mem_interL]) <;> grind
-  · obtain ⟨ck, cs⟩ := c
-    obtain ⟨ik, is⟩ := i
+  · obtain ⟨ck, cs, cc⟩ := c
+    obtain ⟨ik, is, ic⟩ := i
     cases ck <;> cases ik <;> simp only [andArm, SetOp.apply, Approx] at * <;>
       (try trivial) <;> intro id <;> (try simp only [mem_interL]) <;> grind
 
@@ -91,12 +92,12 @@ theorem notArm_step {P Q : Nat → Prop} {c i : IdList} (thres rem : Nat)
     | .ret r => RetOk (fun id => P id ∧ ¬ Q id) r
     | .cont c' => Approx (fun id => P id ∧ ¬ Q id) c' := by
   apply applyArm_ok
-  · obtain ⟨ck, cs⟩ := c
-    obtain ⟨ik, is⟩ := i
+  · obtain ⟨ck, cs, cc⟩ := c
+    obtain ⟨ik, is, ic⟩ := i
     cases ck <;> cases ik <;> simp only [notArm, notPre, notPreKind, SetOp.apply, Approx] at * <;>
       intro h id <;> (try simp only [mem_diffL]) <;> grind
-  · obtain ⟨ck, cs⟩ := c
-    obtain ⟨ik, is⟩ := i
+  · obtain ⟨ck, cs, cc⟩ := c
+    obtain ⟨ik, is, ic⟩ := i
     cases ck <;> cases ik <;> simp only [notArm, notPre, notPreKind, SetOp.apply, Approx] at * <;>
       (try trivial) <;> intro id <;> (try simp only [mem_diffL]) <;> grind
 
@@ -104,7 +105,7 @@ theorem firstCheck_ok {P : Nat → Prop} {c : IdList} (thres rem : Nat) (hc : Ap
     match firstCheck thres rem c with
     | .ret r => RetOk P r
     | .cont c' => Approx P c' := by
-  obtain ⟨ck, cs⟩ := c
+  obtain ⟨ck, cs, cc⟩ := c
   have key : ck ≠ .allIds → ∀ id, P id → id ∈ cs := by
     intro hk id hp
     cases ck <;> simp only [Approx] at hc
@@ -117,7 +118,7 @@ theorem firstCheck_ok {P : Nat → Prop} {c : IdList} (thres rem : Nat) (hc : Ap
   · exact hc
   all_goals
     simp only
-    by_cases h1 : (decide (cs.length < thres) && decide (rem > 0)) = true
+    by_cases h1 : (belowThreshold cs cc thres && decide (rem > 0)) = true
     · simp only [h1, if_true]
       exact retOk_thres (key (by decide))
     · by_cases h2 : cs.isEmpty = true
@@ -404,10 +405,10 @@ structure IdxSound (w : World) (idx : Idx) : Prop where
 def sem (S : ValSem) (w : World) (f : F) (id : Nat) : Prop :=
   id ∈ w.live ∧ f.matches S (w.ent id) = true
 
-theorem subLoop_sup (get : List Nat → Option (List Nat)) (R : Nat → Prop) :
-    ∀ (ks : List (List Nat)) (idl : List Nat), (∀ id, R id → id ∈ idl) →
-      (∀ k ∈ ks, ∃ s, get k = some s ∧ ∀ id, R id → id ∈ s) →
-      ∀ id, R id → id ∈ subLoop get idl ks := by
+theorem subLoop_sup (get : List Nat → Option (List Nat × Bool)) (R : Nat → Prop) :
+    ∀ (ks : List (List Nat)) (idl : List Nat × Bool), (∀ id, R id → id ∈ idl.1) →
+      (∀ k ∈ ks, ∃ s, get k = some s ∧ ∀ id, R id → id ∈ s.1) →
+      ∀ id, R id → id ∈ (subLoop get idl ks).1 := by
   intro ks
   induction ks with
   | nil => intro idl h _ id hr; simpa [subLoop] using h id hr
@@ -415,15 +416,15 @@ theorem subLoop_sup (get : List Nat → Option (List Nat)) (R : Nat → Prop) :
     intro idl h hall id hr
     obtain ⟨s, hs, hsup⟩ := hall k (List.mem_cons_self)
     simp only [subLoop, hs]
-    have hin : ∀ id, R id → id ∈ interL s idl := fun id hr => mem_interL.mpr ⟨hsup id hr, h id hr⟩
+    have hin : ∀ id, R id → id ∈ interL s.1 idl.1 := fun id hr => mem_interL.mpr ⟨hsup id hr, h id hr⟩
     split
     · exact hin id hr
     · exact ih _ hin (fun k' hk' => hall k' (List.mem_cons_of_mem _ hk')) id hr
 
-theorem idlSub_ok {w : World} {idx : Idx} (hI : IdxSound w idx) (a : Nat) (key : List Nat)
+theorem idlSub_ok {w : World} {idx : Idx} (rep : Rep) (hI : IdxSound w idx) (a : Nat) (key : List Nat)
     (hne : key ≠ []) (R : Nat → Prop)
     (hR : ∀ id, R id → id ∈ w.live ∧ ∃ x ∈ w.ent id a, ∀ t ∈ trigraphs key, t ∈ subKeysOf x) :
-    Approx R (idlSub idx a key) := by
+    Approx R (idlSub idx rep a key) := by
   unfold idlSub
   cases ht : trigraphs key with
   | nil => exact absurd ht (trigraphs_ne_nil hne)
@@ -440,13 +441,14 @@ theorem idlSub_ok {w : World} {idx : Idx} (hI : IdxSound w idx) (a : Nat) (key :
       have h0sup := hkey k (List.mem_cons_self) idl h0
       split
       · simp only [Approx]
-        refine subLoop_sup _ R ks idl h0sup ?_
+        refine subLoop_sup _ R ks (idl, _) h0sup ?_
         intro k' hk'
         have hu := hI.uniform a .substring (.str k) (.str k')
         rw [h0] at hu
         cases hk2 : idx a .substring (.str k') with
         | none => rw [hk2] at hu; simp at hu
-        | some s => exact ⟨s, rfl, hkey k' (List.mem_cons_of_mem _ hk') s hk2⟩
+        | some s =>
+          exact ⟨(s, rep a .substring (.str k')), by simp [hk2], hkey k' (List.mem_cons_of_mem _ hk') s hk2⟩
       · simp only [Approx]; exact h0sup
 
 theorem needleOk_key {v : Val} {key : List Nat} (h : needleOk v = true) (hk : subKey v = some key) :
@@ -458,12 +460,12 @@ theorem needleOk_key {v : Val} {key : List Nat} (h : needleOk v = true) (hk : su
     | nil => simp [needleOk] at h
     | cons c cs => simp only [subKey, Option.some.injEq] at hk; subst hk; simp
 
-theorem idlSubTerm_ok {S : ValSem} (hS : SubSem S) {w : World} {idx : Idx} (hI : IdxSound w idx)
+theorem idlSubTerm_ok {S : ValSem} (hS : SubSem S) {w : World} {idx : Idx} (rep : Rep) (hI : IdxSound w idx)
     (a : Nat) (v : Val) (s : Option Nat) (hsafe : (s.isNone || needleOk v) = true)
     (rel : Val → Val → Bool)
     (hrel : ∀ x, rel x v = true → (S.sub x v = true ∨ S.stw x v = true ∨ S.enw x v = true)) :
     Approx (fun id => id ∈ w.live ∧ (w.ent id a).any (fun x => rel x v) = true)
-      (idlSubTerm idx a v s) := by
+      (idlSubTerm idx rep a v s) := by
   unfold idlSubTerm
   cases hs : s.isSome with
   | false => simp only [Approx]
@@ -476,13 +478,13 @@ theorem idlSubTerm_ok {S : ValSem} (hS : SubSem S) {w : World} {idx : Idx} (hI :
         cases s with
         | none => simp at hs
         | some _ => simpa using hsafe
-      refine idlSub_ok hI a key (needleOk_key hn hk) _ ?_
+      refine idlSub_ok rep hI a key (needleOk_key hn hk) _ ?_
       intro id ⟨hl, hany⟩
       obtain ⟨x, hx, hr⟩ := List.any_eq_true.mp hany
       exact ⟨hl, x, hx, fun t ht => hS x v key (hrel x hr) hk t ht⟩
 
-theorem idlEq_ok {w : World} {idx : Idx} (hI : IdxSound w idx) (a : Nat) (v : Val) (s : Option Nat) :
-    Approx (fun id => id ∈ w.live ∧ (w.ent id a).contains v = true) (idlEq idx a v s) := by
+theorem idlEq_ok {w : World} {idx : Idx} (rep : Rep) (hI : IdxSound w idx) (a : Nat) (v : Val) (s : Option Nat) :
+    Approx (fun id => id ∈ w.live ∧ (w.ent id a).contains v = true) (idlEq idx rep a v s) := by
   unfold idlEq
   split
   · cases h : idx a .equality v with
@@ -490,8 +492,8 @@ theorem idlEq_ok {w : World} {idx : Idx} (hI : IdxSound w idx) (a : Nat) (v : Va
     | some l => simp only [Approx]; exact hI.eq a v l h
   · simp only [Approx]
 
-theorem idlPres_ok {w : World} {idx : Idx} (hI : IdxSound w idx) (a : Nat) (s : Option Nat) :
-    Approx (fun id => id ∈ w.live ∧ (!(w.ent id a).isEmpty) = true) (idlPres idx a s) := by
+theorem idlPres_ok {w : World} {idx : Idx} (rep : Rep) (hI : IdxSound w idx) (a : Nat) (s : Option Nat) :
+    Approx (fun id => id ∈ w.live ∧ (!(w.ent id a).isEmpty) = true) (idlPres idx rep a s) := by
   unfold idlPres
   split
   · cases h : idx a .presence presKey with
@@ -503,10 +505,10 @@ theorem idlPres_ok {w : World} {idx : Idx} (hI : IdxSound w idx) (a : Nat) (s : 
       simp
   · simp only [Approx]
 
-theorem idlLt_ok {S : ValSem} {w : World} {idx : Idx} (hI : IdxSound w idx) (a : Nat) (v : Val)
+theorem idlLt_ok {S : ValSem} {w : World} {idx : Idx} (rep : Rep) (hI : IdxSound w idx) (a : Nat) (v : Val)
     (s : Option Nat) :
     Approx (fun id => id ∈ w.live ∧ (w.ent id a).any (fun x => S.lt x v) = true)
-      (idlLt idx a s) := by
+      (idlLt idx rep a s) := by
   unfold idlLt
   split
   · cases h : idx a .presence presKey with
@@ -527,20 +529,20 @@ def F.inner? : F → Option F
   | .andnot g _ => some g
   | _ => none
 
-theorem idlAll_eq (idx : Idx) (thres : Nat) (l : List F) :
-    F.idlAll idx thres l = l.map (fun f => f.idl idx thres) := by
+theorem idlAll_eq (idx : Idx) (rep : Rep) (thres : Nat) (l : List F) :
+    F.idlAll idx rep thres l = l.map (fun f => f.idl idx rep thres) := by
   induction l with
   | nil => rfl
   | cons f fs ih => simp [F.idlAll, ih]
 
-theorem idlPos_eq (idx : Idx) (thres : Nat) (l : List F) :
-    F.idlPos idx thres l = (l.filter (fun f => !f.isAndNot)).map (fun f => f.idl idx thres) := by
+theorem idlPos_eq (idx : Idx) (rep : Rep) (thres : Nat) (l : List F) :
+    F.idlPos idx rep thres l = (l.filter (fun f => !f.isAndNot)).map (fun f => f.idl idx rep thres) := by
   induction l with
   | nil => rfl
   | cons f fs ih => cases f <;> simp [F.idlPos, F.isAndNot, ih]
 
-theorem idlNeg_eq (idx : Idx) (thres : Nat) (l : List F) :
-    F.idlNeg idx thres l = (l.filterMap F.inner?).map (fun f => f.idl idx thres) := by
+theorem idlNeg_eq (idx : Idx) (rep : Rep) (thres : Nat) (l : List F) :
+    F.idlNeg idx rep thres l = (l.filterMap F.inner?).map (fun f => f.idl idx rep thres) := by
   induction l with
   | nil => rfl
   | cons f fs ih => cases f <;> simp [F.idlNeg, F.inner?, List.filterMap_cons, ih]
@@ -566,45 +568,45 @@ theorem safe_not_andnot {f : F} (h : f.safe = true) : f.isAndNot = false := by
 
 /-! ### the central lemma -/
 
-theorem filter2idl_sound_aux (S : ValSem) (hS : SubSem S) (w : World) (idx : Idx)
+theorem filter2idl_sound_aux (S : ValSem) (hS : SubSem S) (w : World) (idx : Idx) (rep : Rep)
     (hI : IdxSound w idx) (thres : Nat) :
-    ∀ f : F, (f.safe = true → Approx (sem S w f) (f.idl idx thres)) ∧
-      (∀ g, f.inner? = some g → g.safe = true → Approx (sem S w g) (g.idl idx thres)) := by
+    ∀ f : F, (f.safe = true → Approx (sem S w f) (f.idl idx rep thres)) ∧
+      (∀ g, f.inner? = some g → g.safe = true → Approx (sem S w g) (g.idl idx rep thres)) := by
   intro f
   induction f using F.ind with
   | heq a v s =>
     refine ⟨fun _ => ?_, fun g h => by simp [F.inner?] at h⟩
     simp only [F.idl]
-    exact approx_congr (fun id => by simp [sem, F.matches]) (idlEq_ok hI a v s)
+    exact approx_congr (fun id => by simp [sem, F.matches]) (idlEq_ok rep hI a v s)
   | hcnt a v s =>
     refine ⟨fun hsafe => ?_, fun g h => by simp [F.inner?] at h⟩
     simp only [F.idl]
     exact approx_congr (fun id => by simp [sem, F.matches])
-      (idlSubTerm_ok hS hI a v s (by simpa [F.safe] using hsafe) S.sub (fun x h => Or.inl h))
+      (idlSubTerm_ok hS rep hI a v s (by simpa [F.safe] using hsafe) S.sub (fun x h => Or.inl h))
   | hstw a v s =>
     refine ⟨fun hsafe => ?_, fun g h => by simp [F.inner?] at h⟩
     simp only [F.idl]
     exact approx_congr (fun id => by simp [sem, F.matches])
-      (idlSubTerm_ok hS hI a v s (by simpa [F.safe] using hsafe) S.stw
+      (idlSubTerm_ok hS rep hI a v s (by simpa [F.safe] using hsafe) S.stw
         (fun x h => Or.inr (Or.inl h)))
   | henw a v s =>
     refine ⟨fun hsafe => ?_, fun g h => by simp [F.inner?] at h⟩
     simp only [F.idl]
     exact approx_congr (fun id => by simp [sem, F.matches])
-      (idlSubTerm_ok hS hI a v s (by simpa [F.safe] using hsafe) S.enw
+      (idlSubTerm_ok hS rep hI a v s (by simpa [F.safe] using hsafe) S.enw
         (fun x h => Or.inr (Or.inr h)))
   | hpres a s =>
     refine ⟨fun _ => ?_, fun g h => by simp [F.inner?] at h⟩
     simp only [F.idl]
-    exact approx_congr (fun id => by simp [sem, F.matches]) (idlPres_ok hI a s)
+    exact approx_congr (fun id => by simp [sem, F.matches]) (idlPres_ok rep hI a s)
   | hlt a v s =>
     refine ⟨fun _ => ?_, fun g h => by simp [F.inner?] at h⟩
     simp only [F.idl]
-    exact approx_congr (fun id => by simp [sem, F.matches]) (idlLt_ok (S := S) hI a v s)
+    exact approx_congr (fun id => by simp [sem, F.matches]) (idlLt_ok (S := S) rep hI a v s)
   | hor l s ih =>
     refine ⟨fun hsafe => ?_, fun g h => by simp [F.inner?] at h⟩
     have hall : ∀ f ∈ l, f.safe = true := (safeAll_iff l).mp (by simpa [F.safe] using hsafe)
-    have := orLoop_ok (sem S w) (fun f => f.idl idx thres) l ⟨[], false, false⟩ (fun _ => False)
+    have := orLoop_ok (sem S w) (fun f => f.idl idx rep thres) l ⟨[], false, false, false⟩ (fun _ => False)
       (by simp) (fun f hf => (ih f hf).1 (hall f hf))
     simp only [F.idl, idlAll_eq]
     refine approx_congr (fun id => ?_) this
@@ -617,8 +619,8 @@ theorem filter2idl_sound_aux (S : ValSem) (hS : SubSem S) (w : World) (idx : Idx
     simp only [F.safe, Bool.and_eq_true] at hsafe
     have hpos := (hasPos_iff l).mp hsafe.1
     have hsa := (safeAnd_iff l).mp hsafe.2
-    have := andCombine_approx (sem S w) (fun f => f.idl idx thres) (sem S w)
-      (fun f => f.idl idx thres) thres (l.filter (fun f => !f.isAndNot)) (l.filterMap F.inner?)
+    have := andCombine_approx (sem S w) (fun f => f.idl idx rep thres) (sem S w)
+      (fun f => f.idl idx rep thres) thres (l.filter (fun f => !f.isAndNot)) (l.filterMap F.inner?)
       (by
         intro f hf
         simp only [List.mem_filter, Bool.not_eq_true'] at hf
